@@ -276,7 +276,10 @@ def load_known():
 
 def finding_matches(finding, failure):
     sig = finding.get('signature', {})
-    if sig.get('class') != failure.get('class'):
+    if 'class_prefix' in sig:
+        if not str(failure.get('class', '')).startswith(sig['class_prefix']):
+            return False
+    elif sig.get('class') != failure.get('class'):
         return False
     for k, v in sig.get('where', {}).items():
         if failure.get('params', {}).get(k) != v:
